@@ -1,5 +1,7 @@
 pub mod doc;
 pub mod render;
+#[cfg(veryl_verif)]
+pub mod verif;
 
 pub use doc::{CommentDoc, Doc};
 pub use render::{RenderOpts, render};
